@@ -22,6 +22,8 @@ where
     iter: I,
     communication: Vec<ThreadCommunication<I::Item, T>>,
     handles: Vec<std::thread::JoinHandle<()>>,
+    /// Whether the thread has been sent a task whose result was not received yet.
+    outstanding: Vec<bool>,
 }
 
 /// Send `U`, receive `V`.
@@ -60,10 +62,20 @@ where
         }
 
         // Get answer from the thread number `self.now`.
-        let result = self.communication[self.now].receive.recv().unwrap_or_default();
+        let result = match self.communication[self.now].receive.recv() {
+            Ok(result) => result,
+            Err(_) => {
+                // The thread is gone. That is expected after it has been told to finish. When it
+                // still owes a result the mapped function panicked, do not end silently.
+                assert!(!self.outstanding[self.now], "A parallel_map thread panicked.");
+                None
+            }
+        };
 
         // Some(task) means more work for the thread, None means the thread should finish.
-        let _ = self.communication[self.now].send.send(self.iter.next());
+        let next_task = self.iter.next();
+        self.outstanding[self.now] = next_task.is_some();
+        let _ = self.communication[self.now].send.send(next_task);
 
         // Move to the next thread (which should be finishing soonest if all tasks take
         // the same time).
@@ -139,7 +151,8 @@ where
         let _ = communication[t].send.send(next_task);
     }
 
-    ParallelMap { now: 0, iter, communication, handles }
+    let outstanding = vec![true; communication.len()];
+    ParallelMap { now: 0, iter, communication, handles, outstanding }
 }
 
 #[cfg(test)]
